@@ -3,6 +3,8 @@
 #include <rapidcheck.h>
 #include "specs.hpp"
 #include "cmirror.hpp"
+#include <cfenv>
+#include <cerrno>
 #include <masa.h>
 #include <sys/stat.h>
 using namespace MASA;
@@ -55,6 +57,7 @@ template <class Scalar> static std::vector<Res> run_t(const Pair &P, const C20Ca
   // evaluated alternately: rich, simple, rich, simple ...; then every non-zero parameter of both handles is re-set (x 1.0625) through
   // masa_set_param and the comparison is repeated at the same point: a value frozen at the first evaluation shows up reproducibly
   for (int phase = 0; phase < 2; phase++) {
+  if (case_hash(c.rich) % 8 == 1) { errno = EDOM; std::feraiseexcept(FE_DIVBYZERO | FE_INVALID | FE_OVERFLOW); }   // stale ambient state (see numcase.cpp)
   if (phase == 1) { Quiet q; masa_select_mms<Scalar>("rich"); for (auto &kv : pr) { Scalar v = (Scalar)((long double)kv.second.v * 1.0625L); masa_set_param<Scalar>(kv.first, v); kv.second = Q((long double)v); }
     masa_select_mms<Scalar>("simple"); for (auto &kv : ps) { Scalar v = (Scalar)((long double)kv.second.v * 1.0625L); masa_set_param<Scalar>(kv.first, v); kv.second = Q((long double)v); } }
   for (auto &lp : P.labels) { const Ev *er = find_ev(R, lp.first), *es = find_ev(S, lp.second); if (!er || !es) continue; Res r; r.label = lp.first + " vs " + lp.second;
